@@ -235,10 +235,12 @@ func cmdCheck(prop, tier string) int {
 			return 2
 		}
 		// the finding's own signature must not be suppressed while replaying it
+		// (other listed signatures of the property, open or fixed, are passed through so
+		// that this replay can reach its own)
 		k2 := map[string]bool{}
-		for s := range known {
-			if s != f.Signature {
-				k2[s] = true
+		for _, o := range ff.Findings {
+			if o.Property == prop && o.Signature != f.Signature {
+				k2[o.Signature] = true
 			}
 		}
 		res := core.Execute(p, chooser.NewReplayer(rf.Tape), k2, "replay", false)
@@ -516,7 +518,12 @@ func cmdReplay(path string) int {
 		fmt.Fprintln(os.Stderr, "unknown profile", rf.Profile)
 		return 2
 	}
-	_, known := loadKnown(rf.Property)
+	ffile, known := loadKnown(rf.Property)
+	for _, o := range ffile.Findings { // pass through every other listed signature of the property
+		if o.Property == rf.Property {
+			known[o.Signature] = true
+		}
+	}
 	delete(known, rf.Expect.Signature)
 	res := core.Execute(p, chooser.NewReplayer(rf.Tape), known, "replay", true)
 	for _, l := range res.Trace {
